@@ -4,6 +4,9 @@
 // no stride tricks: every output element is computed from explicitly formed multi-indices of the operands.
 // nullopt = PyTorch raises (incompatible shapes, non-positive output size, ...).
 #pragma once
+#include <string>
+#include <cstdio>
+#include <algorithm>
 #include "nmc_ref.hpp"
 
 namespace nmc {
